@@ -43,9 +43,13 @@ SubjOf(sel) == CASE sel = "ror"    -> {[a \in Arts |-> IF a = "a3" THEN "a1" ELS
                  [] sel = "all"    -> SubjMaps
 \* configuration space; paging only matters with the API, the response cache and missing tag-delete
 \* support only for registries
-ConfSpace(Modes, Caches, Pages, TagDels, SubjSel) ==
-  {c \in {[mode |-> m, cache |-> ch, page |-> g, tagdel |-> t, subj |-> sm] :
-             m \in Modes, ch \in Caches, g \in Pages, t \in TagDels, sm \in UNION {SubjOf(x) : x \in SubjSel}} :
+\* Spells: how the caller writes the subject reference it lists - "dig" repo@digest, "tag" repo:tag
+\* (only the stored subject s1 has a tag; RegClient.ReferrerList resolves it with a HEAD), "both"
+\* repo:tag@digest
+ConfSpace(Modes, Caches, Pages, TagDels, SubjSel, Spells) ==
+  {c \in {[mode |-> m, cache |-> ch, page |-> g, tagdel |-> t, subj |-> sm, spell |-> sp] :
+             m \in Modes, ch \in Caches, g \in Pages, t \in TagDels, sm \in UNION {SubjOf(x) : x \in SubjSel},
+             sp \in Spells} :
      /\ (c.mode # "api" => c.page = 0)
      /\ (c.mode = "oci" => c.cache = 0 /\ c.tagdel = 1)
      /\ (c.mode = "api" => c.tagdel = 1)}
